@@ -823,6 +823,10 @@ func (s *loop) poll(variant int) (n int, err error, ran bool) {
 	if s.depth != 0 {
 		sim.Bug("poll at depth %d", s.depth)
 	}
+	if s.ioc.Dispatched != 0 {
+		// the stack is unwound: nothing is being dispatched
+		s.c.Failf("depth-accounting-not-restored", "IO.Dispatched=%d after the poll returned, with no completion callback on the stack", s.ioc.Dispatched)
+	}
 	// a poll that dispatched a handler enters the kernel at least twice
 	// (epoll_wait, then the handler's epoll_ctl / read / write)
 	s.lastPollDispatched = s.w.KernelCalls-kc > 1 || s.cbRuns > before
